@@ -55,6 +55,9 @@ type Engine struct {
 	txn     *Transaction
 	tomb    tomb.Tomb
 	mutex   sync.Mutex
+
+	// the timestamp of the newest oplog event discarded by the cleanup
+	discarded primitive.Timestamp
 }
 
 // CreateEngine will create and return an engine with a loaded catalog from the
@@ -249,6 +252,10 @@ func (e *Engine) Commit(txn *Transaction) error {
 		return err
 	}
 
+	// remember the newest oplog event the cleanup discarded so that streams
+	// without a position in the oplog can detect that they lost events
+	e.discarded = newestDiscarded(e.catalog, txn.Catalog(), e.discarded)
+
 	// set new catalog
 	verifPoint("commit.before_publish", e)
 	e.catalog = txn.Catalog()
@@ -371,11 +378,22 @@ func (e *Engine) Watch(handle Handle, pipeline bsonkit.List, resumeAfter, startA
 		signal:   make(chan struct{}, 1),
 	}
 
+	// a stream that starts before the first event (or on an empty oplog) has
+	// no event to hold on to; remember the time from which on it wants events
+	// so that it can tell when one of them has been discarded
+	if last == nil {
+		if startAt != nil {
+			stream.floor = *startAt
+		} else {
+			stream.floor = bsonkit.Now()
+		}
+	}
+
 	// set oplog method
-	stream.oplog = func() *bsonkit.Set {
+	stream.oplog = func() (*bsonkit.Set, primitive.Timestamp) {
 		e.mutex.Lock()
 		defer e.mutex.Unlock()
-		return e.catalog.Namespaces[Oplog].Documents
+		return e.catalog.Namespaces[Oplog].Documents, e.discarded
 	}
 
 	// set cancel method
@@ -482,4 +500,33 @@ func (e *Engine) expire(interval time.Duration, reporter func(error)) {
 		}
 		verifPoint("expire.pass_end", e)
 	}
+}
+
+// newestDiscarded returns the timestamp of the newest oplog event that is part
+// of the old catalog but has been discarded from the new one (events are only
+// ever discarded as a prefix), or prev if there is none.
+func newestDiscarded(old, new *Catalog, prev primitive.Timestamp) primitive.Timestamp {
+	// get oplogs
+	oldLog := old.Namespaces[Oplog].Documents
+	newLog := new.Namespaces[Oplog].Documents
+
+	// determine the number of discarded events: the position of the first
+	// surviving event in the old oplog, or all of them
+	discarded := len(oldLog.List)
+	if len(newLog.List) > 0 {
+		if index, ok := oldLog.Index[newLog.List[0]]; ok {
+			discarded = index
+		}
+	}
+	if discarded == 0 {
+		return prev
+	}
+
+	// get timestamp of the newest discarded event
+	ts, ok := bsonkit.Get(oldLog.List[discarded-1], "_id.ts").(primitive.Timestamp)
+	if !ok {
+		return prev
+	}
+
+	return ts
 }
